@@ -8,5 +8,6 @@ cd /verif
 mkdir -p /tmp/try-seeded && rm -rf /tmp/try-seeded/replays && cp -r /verif/fixtures /verif/known-findings.txt /tmp/try-seeded/
 OUT=$(VERIF_DIR=/tmp/try-seeded ./check "$ID" "$T" 2>&1); CODE=$?
 git -C /repo checkout -- . 
+(cd /verif && cargo build --release --offline -p hv >/dev/null 2>&1)
 echo "$OUT" | grep -E "VIOLATION|invariant=|HARNESS|quick:|thorough:" | head -12
 echo "exit=$CODE"
